@@ -1,9 +1,10 @@
 #!/bin/bash
-# confirm + test every finished second-batch worktree that is not yet under seeded/
+# confirm every finished later-batch worktree change that is not yet under seeded/
 cd /verif
-for wt in /tmp/mut2-C*; do
-  pid=$(basename $wt | sed 's/mut2-//')
-  for v in C D; do
+for wt in /tmp/mut2-C* /tmp/mut3-C*; do
+  [ -d $wt ] || continue
+  pid=$(basename $wt | sed 's/mut[23]-//')
+  for v in C D E F; do
     lc=$(echo $v | tr 'A-Z' 'a-z')
     [ -f $wt/out/$v/meta.json ] || continue
     [ -d seeded/$pid-$lc ] && continue
